@@ -2,7 +2,7 @@
 # tools/refactor_verify.sh <dir with refactorN.diff> [checks...]
 # For each behaviour-preserving refactoring: the 98 tests must pass in both configurations and every check must exit 0.
 SRC=$1; shift
-CHECKS=${*:-C01 C02 C03 C04 C05 C06 C07 C08 C09 C10 C11 C12 C13 C14 C16 C17 C18 C19 C20}
+CHECKS=${*:-C01 C02 C03 C04 C05 C06 C07 C08 C09 C10 C11 C12 C13 C14 C15 C16 C17 C18 C19 C20}
 export CARGO_NET_OFFLINE=true
 for d in $SRC/refactor*.diff; do
   [ -f "$d" ] || continue
@@ -25,7 +25,7 @@ for d in $SRC/refactor*.diff; do
       src/emulator.rs) CH="$CH C01 C03 C04 C07 C08 C09";;
       src/cpu.rs) CH="$CH C01 C02 C08 C09";;
       src/devices/timer.rs) CH="$CH C13 C09 C10";;
-      src/devices/video/*) CH="$CH C14 C09 C10";;
+      src/devices/video/*) CH="$CH C14 C15 C09 C10";;
       src/devices/joypad.rs) CH="$CH C17 C10";;
       src/devices/io.rs) CH="$CH C07 C09 C10 C13 C14 C17 C18";;
       src/devices/interrupts.rs) CH="$CH C07 C08 C10 C13 C14 C17";;
@@ -33,7 +33,7 @@ for d in $SRC/refactor*.diff; do
       src/cache/*) CH="$CH C01 C03 C04 C12 C18";;
       src/main.rs|src/system/*) CH="$CH C19 C18";;
       src/debug/*) CH="$CH C20";;
-      *) CH="$CH C01 C02 C03 C04 C05 C06 C07 C08 C09 C10 C11 C12 C13 C14 C16 C17 C18 C19 C20";;
+      *) CH="$CH C01 C02 C03 C04 C05 C06 C07 C08 C09 C10 C11 C12 C13 C14 C15 C16 C17 C18 C19 C20";;
     esac; done
     CHECKS=$(echo $CH | tr ' ' '\n' | sort -u | tr '\n' ' ')
     echo "   checks: $CHECKS"
